@@ -202,6 +202,8 @@ pub fn run(ctx: &Ctx) {
             ctx.judge(check_total(ctx, &h, &f));
         }
     }
+    // thorough: coverage-guided campaign (libFuzzer) with the same oracle inside the target
+    crate::fuzzrun::decode_campaign(ctx, "c01", &|f| check_total(ctx, &h, f));
     export(ctx, &h);
     let g = |a: &AtomicU64| a.load(Ordering::Relaxed);
     // generator health: every DF that can be accepted, every TC, every BDS 0,9 subtype that is decodable, every register
